@@ -1249,3 +1249,34 @@ Qed.
 Lemma anend_releases_every_type_lemma :
   forall t, In t [AN_DATA_LABEL; AN_DATA_DESC; AN_FILE_LABEL; AN_FILE_DESC] -> In t ANend_types_released.
 Proof. intros t H. simpl in H. unfold ANend_types_released. simpl. intuition (subst; auto). Qed.
+
+(* ------------------------------------------------------------------------------------------------ *)
+(** * Round 4: annotation tag/type switches; exclusive write attachments *)
+Lemma antagref2id_inverts_create_lemma : forall t tag,
+  In (t, tag) ANIcreate_type_to_tag -> aget tag ANtagref2id_tag_to_type = Some t.
+Proof.
+  intros t tag H. unfold ANIcreate_type_to_tag in H. simpl in H.
+  repeat (destruct H as [H|H]; [inversion H; subst; reflexivity|]). contradiction.
+Qed.
+
+Lemma write_attach_is_exclusive_lemma : forall t parent p sub ok id id0 h0,
+  hget KFile parent t = Some p -> aget id0 t = Some h0 -> hk h0 = KVs -> hparent h0 = parent ->
+  hobj h0 = 100 * hobj p + sub ->
+  VSattach_write_refused_whenever_attached = 1 /\ VSattach_read_refused_while_written = 1 /\
+  fst (h_step (CIssue KVs parent KFile sub ok 1) (AOk id) t) = VBad 7 /\
+  (hmode h0 = 1 -> fst (h_step (CIssue KVs parent KFile sub ok 0) (AOk id) t) = VBad 7) /\
+  fst (h_step (CIssue KVs parent KFile sub ok 1) AFail t) = VOk.
+Proof.
+  intros t parent p sub ok id id0 h0 HP A K PA O.
+  assert (I : In (id0, h0) t) by (apply aget_In; exact A).
+  assert (C1 : excl_conflict KVs parent (100 * hobj p + sub) 1 t = true).
+  { unfold excl_conflict. cbn [exclusive_kind andb]. apply existsb_exists. exists (id0, h0). split; auto.
+    cbn [snd]. rewrite K, PA, O, !Z.eqb_refl. reflexivity. }
+  split; [reflexivity|]. split; [reflexivity|]. cbn [h_step]. rewrite HP, C1. cbn [fst].
+  split; [reflexivity|]. split; [|destruct ok; reflexivity].
+  intro M.
+  assert (C0 : excl_conflict KVs parent (100 * hobj p + sub) 0 t = true).
+  { unfold excl_conflict. cbn [exclusive_kind andb]. apply existsb_exists. exists (id0, h0). split; auto.
+    cbn [snd]. rewrite K, PA, O, M, !Z.eqb_refl. reflexivity. }
+  now rewrite C0.
+Qed.
